@@ -349,4 +349,215 @@ example : Abbrev "10/16".toList "10.0.0.0/16".toList :=
 example : Abbrev "1.2.3.4/24".toList "1.2.3.4/24".toList :=
   Abbrev.slash "1.2.3.4".toList "24".toList 24 (by decide) (by decide) (by decide) (by decide) (by decide)
 
+/-! ## finding 10: non-str arguments of `cidr_abbrev_to_verbose` -/
+
+theorem small_lt_limit : 1000 ≤ 10 ^ intMaxStrDigits := by
+  have h : 10 ^ 3 ≤ 10 ^ intMaxStrDigits := Nat.pow_le_pow_right (by decide) (by decide)
+  have : (10 : Nat) ^ 3 = 1000 := rfl
+  omega
+
+/-- **An int argument** (`type(x) is int`): `i` in 0..255 gives the text `i.0.0.0/<class prefix>`
+    (10 → '10.0.0.0/8', 128 → '128.0.0.0/16', 224 → '224.0.0.0/4'); every other int below the
+    interpreter's int-to-str digit limit comes back as the argument itself (256, -1); beyond that
+    limit (|i| ≥ 10^4300) the IndexError message cannot be formatted and a TypeError leaves the
+    function. -/
+theorem abbrev_int (i : Int) :
+    (0 ≤ i ∧ i ≤ 255 →
+      cidrAbbrevToVerboseX (.int i) = .ok (.text (dec i.toNat ++ ".0.0.0/".toList ++ dec (classOf i.toNat)))) ∧
+    (¬ (0 ≤ i ∧ i ≤ 255) → i.natAbs < 10 ^ intMaxStrDigits → cidrAbbrevToVerboseX (.int i) = .ok .same) ∧
+    (10 ^ intMaxStrDigits ≤ i.natAbs → cidrAbbrevToVerboseX (.int i) = .error .type_) := by
+  refine ⟨?_, ?_, ?_⟩
+  · intro h
+    obtain ⟨hs, _⟩ := showInt_of_range i h
+    simp only [cidrAbbrevToVerboseX, abbrevOfInt, classful_of_range i h, hs]
+  · intro h hlt
+    have hcls : classfulPrefix i = none := by rw [classful_rules, if_neg h]
+    have : ¬ (i.natAbs ≥ 10 ^ intMaxStrDigits) := by omega
+    simp only [cidrAbbrevToVerboseX, abbrevOfInt, hcls, if_neg this]
+  · intro hge
+    have h256 := small_lt_limit
+    have h : ¬ (0 ≤ i ∧ i ≤ 255) := by omega
+    have hcls : classfulPrefix i = none := by rw [classful_rules, if_neg h]
+    have : i.natAbs ≥ 10 ^ intMaxStrDigits := hge
+    simp only [cidrAbbrevToVerboseX, abbrevOfInt, hcls, if_pos this]
+
+/-- an int in 0..255 and its decimal text abbreviate alike -/
+theorem abbrev_int_eq_str (a : Nat) (ha : a < 256) :
+    cidrAbbrevToVerboseX (.int a) = cidrAbbrevToVerboseX (.str (dec a)) := by
+  have h : (0 : Int) ≤ (a : Int) ∧ (a : Int) ≤ 255 := by omega
+  rw [(abbrev_int a).1 h]
+  have := (abbrev_single .platform a ha).1
+  simp only [cidrAbbrevToVerboseX, this, Int.toNat_natCast]
+
+/-- **bool, float, None**: `True` / `False` behave as the ints 1 / 0 ('1.0.0.0/8', '0.0.0.0/8'); a
+    finite float behaves as its truncation `int(x)` (1.5 → '1.0.0.0/8', -0.5 → '0.0.0.0/8', 256.0
+    and -1.0 come back unchanged); `None` (and every object `int()` refuses with TypeError) comes
+    back unchanged.  (The float and None clauses are how the model reads `int(abbrev_cidr)`; what
+    they add is the tie to the real function through the driver op `abbrev_x`.) -/
+theorem abbrev_nonstr :
+    cidrAbbrevToVerboseX (.bool true) = .ok (.text "1.0.0.0/8".toList) ∧
+    cidrAbbrevToVerboseX (.bool false) = .ok (.text "0.0.0.0/8".toList) ∧
+    (∀ t, cidrAbbrevToVerboseX (.float t) = cidrAbbrevToVerboseX (.int t)) ∧
+    cidrAbbrevToVerboseX .none = .ok .same := by
+  refine ⟨by decide, by decide, fun _ => rfl, rfl⟩
+
+example : cidrAbbrevToVerboseX (.int 10) = .ok (.text "10.0.0.0/8".toList) := by decide
+example : cidrAbbrevToVerboseX (.int 256) = .ok .same ∧ cidrAbbrevToVerboseX (.int (-1)) = .ok .same := by
+  have h := small_lt_limit
+  have e1 : (256 : Int).natAbs = 256 := rfl
+  have e2 : (-1 : Int).natAbs = 1 := rfl
+  exact ⟨(abbrev_int 256).2.1 (by omega) (by omega), (abbrev_int (-1)).2.1 (by omega) (by omega)⟩
+
+/-! ## finding 18: one family per text, at constructor level -/
+
+/-- **No text builds a network in both families**: a string accepted under `version=4` is refused
+    with AddrFormatError under `version=6` and vice versa (`IPNetwork('1.2.3.4/24', version=6)`,
+    `IPNetwork('::1/64', version=4)`), for every implicit_prefix and flags. -/
+theorem version_mismatch_rejects (be : Backend) (s : List Char) (i : Bool) (fl : Nat) :
+    ((∃ n, ipNetwork be (.str s) i (some 4) fl = .ok n) → ipNetwork be (.str s) i (some 6) fl = .error .addrFormat) ∧
+    ((∃ n, ipNetwork be (.str s) i (some 6) fl = .ok n) → ipNetwork be (.str s) i (some 4) fl = .error .addrFormat) := by
+  constructor
+  · rintro ⟨n, hn⟩
+    obtain ⟨hv, _, a, hsp, _⟩ := (net_accepts_iff be s i (some 4) fl n (Or.inr (Or.inl rfl))).mp hn
+    have hver : n.ver = 4 := by
+      rcases hv with e | e
+      · cases e
+      · injection e with e; exact e.symm
+    rw [hver] at hsp
+    rcases net_result be s i (some 6) fl (Or.inr (Or.inr rfl)) with ⟨n6, h6, _, _⟩ | h
+    · obtain ⟨hv6, _, a6, hsp6, _⟩ := (net_accepts_iff be s i (some 6) fl n6 (Or.inr (Or.inr rfl))).mp h6
+      have hver6 : n6.ver = 6 := by
+        rcases hv6 with e | e
+        · cases e
+        · injection e with e; exact e.symm
+      rw [hver6] at hsp6
+      exact (spells_exclusive be _ _ _ _ _ hsp hsp6).elim
+    · exact h
+  · rintro ⟨n, hn⟩
+    obtain ⟨hv, _, a, hsp, _⟩ := (net_accepts_iff be s i (some 6) fl n (Or.inr (Or.inr rfl))).mp hn
+    have hver : n.ver = 6 := by
+      rcases hv with e | e
+      · cases e
+      · injection e with e; exact e.symm
+    rw [hver] at hsp
+    rcases net_result be s i (some 4) fl (Or.inr (Or.inl rfl)) with ⟨n4, h4, _, _⟩ | h
+    · obtain ⟨hv4, _, a4, hsp4, _⟩ := (net_accepts_iff be s i (some 4) fl n4 (Or.inr (Or.inl rfl))).mp h4
+      have hver4 : n4.ver = 4 := by
+        rcases hv4 with e | e
+        · cases e
+        · injection e with e; exact e.symm
+      rw [hver4] at hsp4
+      exact (spells_exclusive be _ _ _ _ _ hsp4 hsp).elim
+    · exact h
+
+/-- … in particular for every printed network: `IPNetwork(str(n), version=<the other family>)` is
+    AddrFormatError -/
+theorem version_mismatch_printed (be : Backend) (n : Net) (hn : n.WF) (i : Bool) (fl : Nat) :
+    ipNetwork be (.str (netStr be n)) i (some (10 - n.ver)) fl = .error .addrFormat := by
+  have hrt := str_roundtrip_all be n hn (some n.ver) (Or.inr rfl) fl i
+  rcases hn.1 with e | e
+  · rw [e] at hrt ⊢
+    exact (version_mismatch_rejects be _ i fl).1 ⟨_, hrt⟩
+  · rw [e] at hrt ⊢
+    exact (version_mismatch_rejects be _ i fl).2 ⟨_, hrt⟩
+
+theorem pre_colon (i : Bool) (s : List Char) (hs : ':' ∈ s) : pre i s = s := by
+  unfold pre
+  cases i with
+  | false => rfl
+  | true =>
+    simp only [if_true]
+    unfold cidrAbbrevToVerbose
+    rw [List.contains_iff_mem.mpr hs]; rfl
+
+/-- **Address part and mask part must be of one family.**  `A/M` ('/' not in `A`): an address part
+    with ':' followed by a ':'-free mask text that is no numeral (`'::1/255.255.255.0'`,
+    `'::1/0.0.0.255'`, `'::1/0.0.0.0'`), or a ':'-free address part followed by a mask text with
+    ':' (`'1.2.3.4/ffff::'`, `'1.2.3.4/::ff'`, `'1.2.3.4/::ffff:ff00'`), is AddrFormatError — whatever
+    integer the mask text would denote in its own family (contiguous or not), for version
+    None / 4 / 6, every implicit_prefix and flags. -/
+theorem cross_family_mask_rejects (be : Backend) (A M : List Char) (hA : '/' ∉ A) (i : Bool) (pver : Option Nat)
+    (hpver : pver = none ∨ pver = some 4 ∨ pver = some 6) (fl : Nat) :
+    (':' ∈ A → ':' ∉ M → Py.pyInt 10 M = none → ipNetwork be (.str (A ++ '/' :: M)) i pver fl = .error .addrFormat) ∧
+    (':' ∉ A → ':' ∈ M → ipNetwork be (.str (A ++ '/' :: M)) i pver fl = .error .addrFormat) := by
+  have hAc : A.contains '/' = false := contains_false_of_not_mem hA
+  have hsp : splitSlash (A ++ '/' :: M) = (A, some M) := splitSlash_app A M hAc
+  constructor
+  · intro hcA hcM hpi
+    apply (net_rejects_iff be _ i pver fl hpver).mpr
+    rintro n ⟨_, hver, a, ⟨hss, hap, hpp, _⟩, _⟩
+    rw [pre_colon i _ (List.mem_append_left _ hcA), hsp] at hss hap hpp
+    simp only at hss hap hpp
+    rcases hver with e | e
+    · rw [e] at hap
+      have := (addrPart4_iff be A hAc a).mp hap
+      unfold addr4Spec at this
+      rw [List.contains_iff_mem.mpr hcA] at this
+      simp at this
+    · rw [e] at hpp
+      rcases hpp with h | ⟨m, p, hip, _⟩
+      · rw [hpi] at h; cases h
+      · exact hcM (colon_of_strict6 be M _ hip)
+  · intro hcA hcM
+    apply (net_rejects_iff be _ i pver fl hpver).mpr
+    rintro n ⟨_, hver, a, ⟨hss, hap, hpp, _⟩, _⟩
+    rw [pre_colon i _ (List.mem_append_right _ (List.mem_cons_of_mem _ hcM)), hsp] at hss hap hpp
+    simp only at hss hap hpp
+    rcases hver with e | e
+    · rw [e] at hpp
+      rcases hpp with h | ⟨m, p, hip, _⟩
+      · rw [pyInt_colon M hcM] at h; cases h
+      · have hMs : M.contains '/' = false := hss
+        obtain ⟨_, hlt, hx⟩ := (ipAddress4_ok_iff be M hMs _).mp hip
+        rw [hx] at hcM
+        exact colon_not_in_ntoa _ hlt hcM
+    · rw [e] at hap
+      have := (addrPart6_iff be A a).mp hap
+      exact hcA (colon_of_strict6 be A _ this)
+
+example : ipNetwork .platform (.str "::1/255.255.255.0".toList) false none 0 = .error .addrFormat ∧
+    ipNetwork .platform (.str "::1/0.0.0.255".toList) false (some 6) 0 = .error .addrFormat ∧
+    ipNetwork .platform (.str "1.2.3.4/ffff::".toList) false none 0 = .error .addrFormat ∧
+    ipNetwork .platform (.str "1.2.3.4/::ffff:ff00".toList) true (some 4) 0 = .error .addrFormat ∧
+    ipNetwork .platform (.str "1.2.3.4/24".toList) false (some 6) 0 = .error .addrFormat ∧
+    ipNetwork .platform (.str "::1/64".toList) false (some 4) 0 = .error .addrFormat := by decide +kernel
+
+/-! ## finding 21: `repr(IPNetwork)` -/
+
+theorem unquoteNet_frame (m : List Char) : unquoteNetRepr (netReprPrefix ++ (m ++ netReprSuffix)) = some m := by
+  unfold unquoteNetRepr
+  have h1 : netReprPrefix.isPrefixOf (netReprPrefix ++ (m ++ netReprSuffix)) = true := by simp
+  have h2 : (netReprPrefix ++ (m ++ netReprSuffix)).drop netReprPrefix.length = m ++ netReprSuffix := List.drop_left
+  have h3 : netReprSuffix.isSuffixOf (m ++ netReprSuffix) = true := by simp
+  have h4 : (netReprPrefix ++ (m ++ netReprSuffix)).length - netReprPrefix.length - netReprSuffix.length = m.length := by
+    simp only [List.length_append]; omega
+  rw [h1, h2, h3, h4]
+  simp
+
+/-- **`repr(IPNetwork)` and its `eval`-free round trip.**  `repr(n)` is `IPNetwork('` + `str(n)` +
+    `')`; removing that frame gives back `str(n)`, and constructing from it — version None or the
+    network's own, implicit_prefix or not — gives back `n` (host bits included; with NOHOST the
+    host bits are cleared, as for `str(n)` itself). -/
+theorem netRepr_roundtrip (be : Backend) (n : Net) (hn : n.WF) (pver : Option Nat)
+    (hpver : pver = none ∨ pver = some n.ver) (i : Bool) (fl : Nat) :
+    netRepr be n = "IPNetwork('".toList ++ (intToStr be n.ver n.val ++ ['/'] ++ dec n.plen ++ "')".toList) ∧
+    unquoteNetRepr (netRepr be n) = some (netStr be n) ∧
+    ∀ q, unquoteNetRepr (netRepr be n) = some q →
+      ipNetwork be (.str q) i pver fl = .ok ⟨n.ver, stored n.ver fl n.val n.plen, n.plen⟩ ∧
+      (hasFlag fl NOHOST = false → ipNetwork be (.str q) i pver fl = .ok n) := by
+  have hu : unquoteNetRepr (netRepr be n) = some (netStr be n) := unquoteNet_frame _
+  refine ⟨rfl, hu, ?_⟩
+  intro q hq
+  rw [hu] at hq
+  injection hq with hq
+  subst hq
+  have hrt := str_roundtrip_all be n hn pver hpver fl i
+  refine ⟨hrt, ?_⟩
+  intro hf
+  rw [hrt]
+  simp [stored, hf]
+
+example : netRepr .platform ⟨4, 0x01020304, 24⟩ = "IPNetwork('1.2.3.4/24')".toList := by decide
+example : netRepr .platform ⟨6, 0xffff01020304, 100⟩ = "IPNetwork('::ffff:1.2.3.4/100')".toList := by decide
+
 end NV.C03A2
